@@ -480,7 +480,10 @@ func newBucketStorage(
 	var (
 		pairs   = BucketPairs(buckets)
 		storage = bucketStorage{
-			buckets:  buckets,
+			// n.b. A private copy: the storage is cached, and a hit is
+			//      decided by comparing against these bounds, so they must
+			//      not follow later edits of the caller's slice.
+			buckets:  copyBuckets(buckets),
 			hbuckets: make([]histogramBucket, 0, len(pairs)),
 		}
 	)
@@ -493,6 +496,18 @@ func newBucketStorage(
 	}
 
 	return storage
+}
+
+// copyBuckets returns a copy of a value or duration bucket set (any other
+// implementation of Buckets is returned as is).
+func copyBuckets(buckets Buckets) Buckets {
+	switch b := buckets.(type) {
+	case ValueBuckets:
+		return append(ValueBuckets(nil), b...)
+	case DurationBuckets:
+		return append(DurationBuckets(nil), b...)
+	}
+	return buckets
 }
 
 type bucketCache struct {
